@@ -77,6 +77,26 @@ class EnvPatch:
                 return n
         return 0
 
+    def os_env(self, env, files=None, dirs=None):
+        """os.environ / os.getenv (and, when given, os.path.isfile / isdir) in every form the repository may have bound them:
+        `import os`, `from os import environ, getenv, path`, `from os.path import isfile, isdir`, `import os.path as p`"""
+        over = dict(environ=env, getenv=lambda k, d=None: env.get(k, d))
+        n = 0
+        if files is not None or dirs is not None:
+            files, dirs = files or set(), dirs or set()
+            isfile, isdir = (lambda p: p in files), (lambda p: p in dirs)
+            pathproxy = ModProxy(_os.path, isfile=isfile, isdir=isdir, exists=lambda p: p in files or p in dirs)
+            over["path"] = pathproxy
+            n += self.replace(_os.path, pathproxy) + self.replace(_os.path.isfile, isfile) + self.replace(_os.path.isdir, isdir)
+        n += self.replace(_os, ModProxy(_os, **over)) + self.replace(_os.environ, env) + self.replace(_os.getenv, over["getenv"])
+        return n
+
+    def clock(self, time_fn, sleep_fn):
+        """time.time / time.sleep (module or from-imported, any alias) as seen from the repository"""
+        import time as _time
+        return (self.replace(_time, ModProxy(_time, time=time_fn, sleep=sleep_fn, monotonic=time_fn))
+                + self.replace(_time.time, time_fn) + self.replace(_time.sleep, sleep_fn) + self.replace(_time.monotonic, time_fn))
+
     def handshake_crypto(self, sha1=None, compare_digest=None, b64=None):
         """sha1(bytes) -> object with .digest(); compare_digest(a, b); b64(bytes) -> bytes WITHOUT trailing newline (the newline
         of encodebytes is added here)"""
